@@ -191,7 +191,7 @@ pub fn run(e: &'static Engine) {
         }
     }
     e.par(jobs);
-    let total: u32 = e.tier.pick(12800, 192000);
+    let total: u32 = e.tier.pick(48000, 384000);
     let shards = e.tier.pick(16u32, 64);
     let mut jobs: Vec<Job> = Vec::new();
     for _ in 0..shards {
